@@ -219,3 +219,27 @@ CHECKS["C19"] = dict(
           "every 40th first switch point), fixed hierarchy, line granularity (switches inside a line are outside the claim). The solver's role is "
           "finite-domain bookkeeping. Defect repaired: 537fde9 (unsynchronised lazy build)."),
 )
+
+CHECKS["C10"] = dict(
+    engine="crosshair", category="model_checking", design_ref="DESIGN.md §4, §6 C10",
+    technique="CrossHair (z3) symbolic execution of the real generated entry point, generated value-dependent dispatchers, user predicates and method bodies on symbolic int / bool / str arguments; plain-Python oracle from the documentation; native replay of counterexamples",
+    text=("Random method sets mixing Dependent[bound, predicate] and static methods (bounds int / bool / str / object, priorities, one position; plus "
+          "two-position sets with a dependent type on either position) are built and fully resolved natively at import; CrossHair then executes the "
+          "warm dispatch path on symbolic arguments and must confirm, over all paths, that the method that ran is the one the documentation prescribes "
+          "(condition holds -> preferred over bound and subclasses; fails -> as if absent; two unordered ones hold -> ambiguity error) and that no "
+          "predicate ever saw a non-instance of its bound. Each condition has reachability twins per method and for the ambiguity outcome."),
+    note=("Bounds: int unbounded, bool, str len <= 2 (quick) / 3 (thorough); 90+16 method sets quick, 600+120 thorough; 20 s / 90 s per condition; "
+          "conditions not confirmed are reported as inconclusive. Trusted: CrossHair 0.0.110 confirmations (its counterexamples are replayed natively)."),
+)
+CHECKS["C11"] = dict(
+    engine="crosshair", category="model_checking", design_ref="DESIGN.md §4, §6 C11",
+    technique="CrossHair (z3) symbolic execution of the real generated dispatchers (if-chain, lookup-table, counting strategies) and emitted value checks on symbolic values; oracle = documented meaning written out; native replay of counterexamples",
+    text=("Literal method sets on both sides of the lookup-table threshold (1-6 literal methods, 1-3 values, disjoint / overlapping, mixed value types, "
+          "next to int / object / a non-literal dependent method) and the built-in value types (tuple[...], list[...], Sequence / Collection / Mapping "
+          "element checks, StartsWith, EndsWith, Regexp, HasKey, & and | combinations) are warmed natively, then dispatched on symbolic values; the "
+          "method with annotation T must run exactly when T's documented meaning holds, whatever strategy was generated. isinstance(value, T) against "
+          "the meaning is checked natively on a corpus (CrossHair's patched isinstance does not honour ovld's metaclass hooks)."),
+    note=("Bounds: int unbounded, bool, str len <= 3, containers built from symbolic elements with a symbolic shape index; 40 Literal sets + 11 value-type "
+          "modules quick, 320 thorough. tuple nested in tuple is outside E1's reach (see DESIGN.md). Defects repaired: 0d06ebd, 2d121dc (and afddf13, "
+          "47abe4c found through C12/C15)."),
+)
